@@ -165,7 +165,7 @@ class World:
 
     def new_fault(self, tag: str, kind: int = 0, allow_base: bool = False, at_call: bool = False) -> BaseException:
         """An exception object the harness injects; its type varies (user code fails with all sorts of exceptions)."""
-        types = self.FAULT_TYPES + ((Fatal,) if allow_base else ()) + ((StopIteration, StopAsyncIteration, LookupError) if at_call else ())
+        types = self.FAULT_TYPES + ((Fatal,) if allow_base else ()) + ((StopIteration, StopAsyncIteration, LookupError, MemoryError, RecursionError) if at_call else ())
         cls = types[kind % len(types)]
         exc = cls(tag)
         self.faults.append(exc)
@@ -640,6 +640,15 @@ class World:
         def gen():
             try:
                 for j in range(n):
+                    if j == raise_at and spec.get("fault_kind", 0) == 5:
+                        # the user's iterator raises CancelledError inside the meta task (e.g. it awaited... no: it called something that
+                        # was cancelled): the request just ends there - nobody else is harmed, flush()/gather_and_close() raise nothing
+                        rm.pm.fault_seen = True
+                        rm.iter_failed = j  # type: ignore[attr-defined]
+                        rm.iter_cancelled = j  # type: ignore[attr-defined]
+                        world.ev(f"iterator of r{rm.rid} raises CancelledError at {j}")
+                        world.label("fault:iterator-raises-CancelledError")
+                        raise asyncio.CancelledError()
                     if j == raise_at:
                         exc = world.new_fault(f"iterator r{rm.rid}[{j}]", spec.get("fault_kind", 0))
                         rm.pm.injected.append(exc)
